@@ -69,18 +69,25 @@ def fault_specs(ctx):
         npos = o["npos"]
         fl = list(faults) + (["sorry"] if s["client"] == "ebyte" and s["cb"] == "ret" else [])
         fl += ["overlong"] if s["client"] in ("actisense", "yd") and s["cb"] == "ret" else []
+        fl += ["refuse35_eof"] if s["cb"] == "ret" else []
         for f in fl:
             sf = s
             if f in ("sorry", "refuse7_reset"):   # 30 s sleep / 35.5 s of back-off before the link is up again: longer recovery tail
                 sf = dict(s)
                 sf["script"] = s["script"][:-len(vloop.RECOVERY_TAIL)] + [["run", 45.0], ["frames", 1], ["run", 0.5]]
                 sf["settle"] = 50.0
+            if f == "refuse35_eof":
+                sf = dict(s)
+                sf["script"] = s["script"][:-len(vloop.RECOVERY_TAIL)] + [["run", 340.0], ["frames", 1], ["run", 0.5]]
+                sf["settle"] = 400.0       # wherever the fault is injected, the 35 refusals (~305 s) fit before the end
             # quick: the slow-callback family and the long-refusal family at every second position
             stride = 1 if (thorough or (s["cb"] == "ret" and f != "refuse3_eof")) else 2
             if f == "refuse7_reset" and not thorough:      # delays 0.5 .. 8, 10, 10 s: reaches the cap
                 stride = 4
             if f in ("partial_reset", "overlong") and not thorough:
                 stride = 3
+            if f == "refuse35_eof":
+                stride = max(1, min(npos, MAX_POS) // (6 if thorough else 2))      # a few positions: each run is long
             for at in range(0, min(npos, MAX_POS) + 1, stride):
                 sp = dict(sf)
                 sp["inject"] = {"at": at, "ops": vloop.FAULTS[f]}
